@@ -8,7 +8,8 @@
    Mirrored functions (branch by branch):
      qt_threadqueue_enqueue            -> enqueue            (tail)
      qt_threadqueue_enqueue_yielded    -> enqueue_yielded    (head)
-     owner path of qt_scheduler_get_thread (q->head != NULL; pop q->tail) -> dequeue_owner
+     owner path of qt_scheduler_get_thread (q->head != NULL; pop q->tail) -> dequeue_owner (worker 0 / single worker)
+                                                                              dequeue_worker (any worker: McCoy left in place)
      qt_threadqueue_dequeue_steal      -> dequeue_steal / scan
      qt_threadqueue_enqueue_multiple   -> enqueue_multiple   (adds addCnt to BOTH counters)
      qthread_steal                     -> qsteal / steal_loop (stealing flag, victim index i++; i*=(i<n-1))
@@ -45,6 +46,21 @@ Definition dequeue_owner (q : queue) : option node * queue :=
   match rev (items q) with
   | [] => (None, q)
   | n :: r => (Some n, mkQ (rev r) (qlen q - 1) (qstl q - b2z (stl n)))
+  end.
+
+(* owner path of qt_scheduler_get_thread as a function of the (packed) worker id, after the fix
+   "a worker that may not run the McCoy task leaves it in place": node = q->tail; if it is the McCoy task and the
+   caller is not worker 0, node = node->prev (possibly NULL: nothing is taken); general doubly-linked unlink *)
+Definition dequeue_worker (q : queue) (w : nat) : option node * queue :=
+  match rev (items q) with
+  | [] => (None, q)
+  | n :: r =>
+      if mccoy n && negb (Nat.eqb w O) then
+        match r with
+        | [] => (None, q)
+        | m :: r' => (Some m, mkQ (rev r' ++ [n]) (qlen q - 1) (qstl q - b2z (stl m)))
+        end
+      else (Some n, mkQ (rev r) (qlen q - 1) (qstl q - b2z (stl n)))
   end.
 
 (* ---- qt_threadqueue_dequeue_steal ------------------------------------------------------- *)
@@ -206,7 +222,7 @@ Fixpoint get_loop (fuel : nat) (st : sys) (s w : nat) (active : bool) : get_res 
       let '(node1, st1) :=
          match items q with
          | [] => (None, st)                                  (* q->head == NULL: not even locked *)
-         | _ => let '(o, q') := dequeue_owner q in (o, setq st s q')
+         | _ => let '(o, q') := dequeue_worker q w in (o, setq st s q')
          end in
       match node1 with
       | Some n =>
@@ -231,12 +247,13 @@ Fixpoint get_loop (fuel : nat) (st : sys) (s w : nat) (active : bool) : get_res 
       end
   end.
 
-(* every item of the own queue is a McCoy task and the caller is not worker 0: the real loop never leaves *)
+(* two or more items, every one a McCoy task, and the caller is not worker 0: the real loop never leaves
+   (it keeps re-queueing the McCoy in front of the tail; cannot happen with the single real McCoy task) *)
 Definition all_mccoy (q : queue) : bool := forallb mccoy (items q).
 
 Definition get_thread (st : sys) (s w : nat) (active : bool) : get_res * sys :=
   match w with
-  | S _ => if negb (match items (getq st s) with [] => true | _ => false end) && all_mccoy (getq st s)
+  | S _ => if Nat.ltb 1 (length (items (getq st s))) && all_mccoy (getq st s)
            then (GLive, st)
            else get_loop (S (S (length (items (getq st s))))) st s w active
   | O => get_loop (S (S (length (items (getq st s))))) st s w active
@@ -397,4 +414,34 @@ Fixpoint sim (fuel : nat) (ptab : list (N * list act)) (q : queue) (rem : list (
           | _ => switch (enqueue_yielded q (tnode cur)) ((cur, prog) :: rem)
           end
       end
+  end.
+
+(* ---- all workers of ONE shepherd on its queue (lock-section granularity), for the McCoy hand-over ---------- *)
+Inductive wop := WPop (w : nat) | WPushY (n : node) | WPush (n : node) | WSteal (chunk : Z).
+
+Definition wstep (q : queue) (o : wop) : queue * list node :=
+  match o with
+  | WPop w => match dequeue_worker q w with (Some n, q') => (q', [n]) | (None, q') => (q', []) end
+  | WPushY n => (enqueue_yielded q n, [])
+  | WPush n => (enqueue q n, [])
+  | WSteal c => let '(s, q') := dequeue_steal c false q in (q', s)
+  end.
+
+Fixpoint wrun (q : queue) (ops : list wop) : queue * list (list node) :=
+  match ops with
+  | [] => (q, [])
+  | o :: tl => let '(q1, out) := wstep q o in let '(q2, outs) := wrun q1 tl in (q2, out :: outs)
+  end.
+
+(* the rule BEFORE the fix (kept as a regression model): every worker pops the tail, whatever it is *)
+Definition wstep_old (q : queue) (o : wop) : queue * list node :=
+  match o with
+  | WPop _ => match dequeue_owner q with (Some n, q') => (q', [n]) | (None, q') => (q', []) end
+  | _ => wstep q o
+  end.
+
+Fixpoint wrun_old (q : queue) (ops : list wop) : queue * list (list node) :=
+  match ops with
+  | [] => (q, [])
+  | o :: tl => let '(q1, out) := wstep_old q o in let '(q2, outs) := wrun_old q1 tl in (q2, out :: outs)
   end.
